@@ -2,6 +2,11 @@ package main
 
 import (
 	"math"
+	"os"
+	"path/filepath"
+	"regexp"
+	"sort"
+	"strconv"
 
 	"verif/harness/hx"
 )
@@ -74,6 +79,10 @@ func dyadicDetMatrix(r *hx.Rng) []float64 {
 	for i := 0; i < 4; i++ {
 		m[5*i] = hx.Pick(r, []float64{1, 1, -1, 2, -2, 4, 0.5})
 	}
+	if r.Chance(1, 3) { // a determinant far from 1 (near-singular / huge), still a power of two: ONE extreme pivot,
+		// so that every product and partial sum of Determinant / Inverse stays within 53 bits
+		m[5*r.Intn(4)] = hx.Pick(r, []float64{1.0 / (1 << 20), -1.0 / (1 << 30), 1 << 20})
+	}
 	for k := r.Range(2, 7); k > 0; k-- {
 		i, j := r.Intn(4), r.Intn(4)
 		if i == j {
@@ -126,6 +135,147 @@ func boxProbes(r *hx.Rng, exact bool, boxes ...[2][]float64) [][]float64 {
 		}
 	}
 	return ps
+}
+
+// ---------------------------------------------------------------- threshold stream
+// thresholds: the numeric constants of the TRANSLATED code (cofQ n d in $VERIF_COQ/gen/{Quat,Mat,Trs,Aabb}.v, i.e.
+// what the Go source compares against right now), as absolute values; 1/2 (extents = size/2) is not a threshold.
+func thresholds() []float64 {
+	dir := os.Getenv("VERIF_COQ")
+	if dir == "" {
+		dir = "coq"
+	}
+	re := regexp.MustCompile(`cofQ \(?(-?[0-9]+)\)? ([0-9]+)`)
+	seen := map[float64]bool{}
+	for _, f := range []string{"Quat.v", "Mat.v", "Trs.v", "Aabb.v"} {
+		b, err := os.ReadFile(filepath.Join(dir, "gen", f))
+		if err != nil {
+			continue
+		}
+		for _, m := range re.FindAllStringSubmatch(string(b), -1) {
+			n, _ := strconv.ParseFloat(m[1], 64)
+			d, _ := strconv.ParseFloat(m[2], 64)
+			if d != 0 && !(n == 1 && d == 2) && n != 0 {
+				seen[math.Abs(n/d)] = true
+			}
+		}
+	}
+	if len(seen) == 0 {
+		seen[0.999999], seen[0.000001] = true, true
+	}
+	var ts []float64
+	for t := range seen {
+		ts = append(ts, t)
+	}
+	sort.Float64s(ts)
+	return ts
+}
+
+func normalize3(v []float64) []float64 {
+	l := math.Sqrt(dot3(v, v))
+	w := []float64{v[0] / l, v[1] / l, v[2] / l}
+	l = math.Sqrt(dot3(w, w))
+	return []float64{w[0] / l, w[1] / l, w[2] / l}
+}
+
+// pairWithDot: unit a (given), unit b with a.b = d, turned about a by the angle phi
+func pairWithDot(a []float64, d, phi float64) []float64 {
+	h := []float64{0, 0, 1}
+	if math.Abs(a[2]) > 0.9 {
+		h = []float64{1, 0, 0}
+	}
+	u := normalize3([]float64{a[1]*h[2] - a[2]*h[1], a[2]*h[0] - a[0]*h[2], a[0]*h[1] - a[1]*h[0]})
+	w := []float64{a[1]*u[2] - a[2]*u[1], a[2]*u[0] - a[0]*u[2], a[0]*u[1] - a[1]*u[0]}
+	sn := math.Sqrt((1 - d) * (1 + d))
+	c, s := math.Cos(phi), math.Sin(phi)
+	b := make([]float64, 3)
+	for i := range b {
+		b[i] = d*a[i] + sn*(c*u[i]+s*w[i])
+	}
+	return b
+}
+
+var relDistances = []float64{1e-9, 1e-7, 1e-6, 2e-6, 1e-5, 1e-3}
+
+// thresholdDots: values of a.b that put a derived quantity of RotationTo (the dot product itself, 1+dot, the squared
+// norm 2(1+dot) of the un-normalised quaternion, its norm) at relative distance rel on either side of threshold t
+func thresholdDots(t float64, full bool) []float64 {
+	var ds []float64
+	rels := relDistances
+	if !full {
+		rels = []float64{1e-7, 1e-5, 1e-3}
+	}
+	for _, rel := range rels {
+		for _, side := range []float64{-1, 1} {
+			x := t * (1 + side*rel)
+			if t >= 0.5 { // a threshold on the dot product itself
+				ds = append(ds, x, -x)
+			} else { // a small threshold: on 1+dot, 1-dot, |q|^2 = 2(1+dot), |q| = sqrt(2(1+dot))
+				ds = append(ds, -1+x, 1-x, -1+x/2, -1+x*x/2)
+			}
+		}
+	}
+	var ok []float64
+	for _, d := range ds {
+		if d > -1 && d < 1 {
+			ok = append(ok, d)
+		}
+	}
+	return ok
+}
+
+func thresholdCases(r *hx.Rng) {
+	orient := [][]float64{{0.6, 0, 0.8}, normalize3([]float64{1, 2, 3}), {0, 1, 0}, normalize3([]float64{-3, 0.5, 0.25})}
+	k := 0
+	next := func() ([]float64, float64) {
+		k++
+		return orient[k%len(orient)], float64(k) * 0.7
+	}
+	// the window just outside the antiparallel branch, explicitly: dot = -1 + delta
+	for _, delta := range []float64{1e-7, 5e-7, 1.5e-6, 2e-6, 3e-6, 4e-6, 5e-6, 1e-5, 3e-5, 1e-4} {
+		for range orient {
+			a, phi := next()
+			doRot(rotDesc{A: a, B: pairWithDot(a, -1+delta, phi)})
+		}
+	}
+	for _, t := range thresholds() {
+		for _, d := range thresholdDots(t, true) {
+			a, phi := next()
+			doRot(rotDesc{A: a, B: pairWithDot(a, d, phi)})
+		}
+		if t < 0.5 {
+			// the fallback-axis test |Right x a| < t: a almost along +-x, b = -a
+			for _, rel := range relDistances {
+				for _, side := range []float64{-1, 1} {
+					sn := t * (1 + side*rel)
+					cs := math.Sqrt((1 - sn) * (1 + sn))
+					if k++; k%2 == 0 {
+						cs = -cs
+					}
+					phi := float64(k)
+					a := []float64{cs, sn * math.Cos(phi), sn * math.Sin(phi)}
+					doRot(rotDesc{A: a, B: neg(a)})
+				}
+			}
+		}
+	}
+	// Normalize on quaternions of every magnitude, in particular tiny-but-nonzero ones and magnitudes around the
+	// square roots of the thresholds
+	mags := []float64{1, 1e-2, 1e-3, 3e-3, 1e-4, 1e-6, 1e-9, 1e-12, 1e3, 1e9}
+	for _, t := range thresholds() {
+		if t < 0.5 {
+			mags = append(mags, t, math.Sqrt(t)*0.999, math.Sqrt(t)*1.001, t*0.999, t*1.001)
+		}
+	}
+	for i, m := range mags {
+		q := unitQuat(r)
+		if i%3 == 0 {
+			q = []float64{0, 0, 0, 1}
+			q[i%4], q[3] = 1, q[i%4]
+		}
+		doNorm(normDesc{Q: []float64{q[0] * m, q[1] * m, q[2] * m, q[3] * m}})
+	}
+	run.Count("fixed:thresholds")
 }
 
 func fixedCases() {
@@ -205,6 +355,7 @@ func fixedCases() {
 	run.Count("fixed:large-arrays")
 	doTheta(thetaDesc{Theta: math.Pi / 2, Axis: []float64{0, 0, 2}, V: []float64{1, 0, 0}})
 	doTheta(thetaDesc{Theta: math.Pi, Axis: []float64{0, 1, 0}, V: []float64{1, 2, 3}})
+	thresholdCases(hx.NewRng(run.Seed + 77))
 }
 
 func generated(r *hx.Rng, i int) {
@@ -254,7 +405,11 @@ func generated(r *hx.Rng, i int) {
 		}
 	case 3: // RotationTo
 		a := unit(r)
-		switch r.Intn(6) {
+		switch r.Intn(8) {
+		case 6, 7: // around a threshold of the translated code, random orientation
+			ts := thresholds()
+			ds := thresholdDots(hx.Pick(r, ts), false)
+			doRot(rotDesc{A: a, B: pairWithDot(a, hx.Pick(r, ds), r.Float()*6.283)})
 		case 0:
 			doRot(rotDesc{A: a, B: neg(a)})
 		case 1:
@@ -335,6 +490,11 @@ func generated(r *hx.Rng, i int) {
 				s[k] = math.Abs(s[k])
 			}
 		}
+		if r.Chance(1, 6) { // tiny but non-zero extents
+			for k := range s {
+				s[k] /= 1 << 30
+			}
+		}
 		if r.Chance(1, 8) {
 			c, s = []float64{0, 0, 0}, []float64{0, 0, 0} // NewEmptyAABB grown from nothing
 		} else if r.Chance(1, 8) {
@@ -406,6 +566,11 @@ func generated(r *hx.Rng, i int) {
 			c, s, v = floats(r, 3, 8), floats(r, 3, 4), floats(r, 3, 12)
 			for k := range s {
 				s[k] = math.Abs(s[k])
+			}
+		}
+		if r.Chance(1, 6) { // tiny but non-zero extents
+			for k := range s {
+				s[k] /= 1 << 30
 			}
 		}
 		if r.Chance(1, 6) { // a single-point / flat box
